@@ -6,6 +6,8 @@ CONSTANTS Variant = "ok"
  MCVs = {1, 2}
  PolyMode = "few"
  MaxRedel = 0
+ MaxFault = 0
+ FaultNodes = {1, 2, 3}
  OrderMode = "canon"
 INVARIANTS TypeOK CountsDistinct NoFailure ThresholdIsT Agreement KeyedByShareIdx OwnShareMatches GroupKeyIsSum AnyTRecover AnyTSign BelowThresholdSafe
 PROPERTIES RedeliveryNoEffect BarrierComplete
